@@ -215,4 +215,138 @@ theorem path_op_kinds (p : Bytes) (n : Nat) :
     PathCall.filestatGet.hostOp p = .stat p := by
   refine ⟨rfl, rfl, rfl, rfl, rfl⟩
 
+
+/-- resolve + the `strcpy` into the second `char[PATH_MAX]`: never undefined, and the copy denotes
+    the same C string -/
+theorem resolved_strcpy (pm : Nat) (dir tl avail : Bytes) (len : Nat) (s1 s2 : Bytes)
+    (hdir0 : (0 : UInt8) ∉ dir) (hdne : dir ≠ []) (hlen : len ≤ avail.length)
+    (hs1 : s1.length = pm) (hs2 : s2.length = pm) :
+    match resolveSpec pm dir (avail.take len) with
+    | none => resolvePath pm (dir ++ 0 :: tl) avail len s1 = .val none
+    | some p => ∃ b native, resolvePath pm (dir ++ 0 :: tl) avail len s1 = .val (some b) ∧
+        strcpy s2 b = .val native ∧ cstr native = cstr p := by
+  obtain ⟨⟨r, hr, hb⟩, _⟩ := resolvePath_in_bounds pm dir tl avail len s1 hdir0 hdne hlen hs1
+  have hspec := resolvePath_spec pm dir tl avail len s1 hdir0 hdne hlen hs1
+  cases hs : resolveSpec pm dir (avail.take len) with
+  | none => simp only; rw [hspec, hs]; rfl
+  | some s =>
+    simp only
+    have hrs : r = some (s ++ [0] ++ s1.drop (s ++ [0]).length) := by
+      rw [hspec, hs] at hr
+      simp only [Option.map_some, Out.val.injEq] at hr
+      exact hr.symm
+    obtain ⟨_, hclen, hnul⟩ := hb _ hrs
+    refine ⟨_, _, by rw [hspec, hs]; rfl, strcpy_ok s2 _ hnul (by omega), ?_⟩
+    have hc : cstr (s ++ [0] ++ s1.drop (s ++ [0]).length) = cstr s := by
+      rw [List.append_assoc]; exact cstr_append_nul s _
+    rw [cstr_strcpy _ _ (cstr_nul_free _), hc]
+
+/-- **path_rename acts on the two resolved paths**: both descriptors are looked up, both guest
+    paths resolved (old first); then exactly one `rename(old, new)` on the resolved strings. -/
+theorem path_rename_acts_on_resolved (pm : Nat) (host : HostOp → HostRes) (fds : FdTable)
+    (fd1 fd2 : Nat) (d1 t1 d2 t2 a1 a2 : Bytes) (l1 l2 : Nat) (s1 s2 s3 s4 : Bytes)
+    (hfd1 : fds[fd1]? = some (some (d1 ++ 0 :: t1))) (hfd2 : fds[fd2]? = some (some (d2 ++ 0 :: t2)))
+    (h10 : (0 : UInt8) ∉ d1) (h1ne : d1 ≠ []) (h20 : (0 : UInt8) ∉ d2) (h2ne : d2 ≠ [])
+    (hl1 : l1 ≤ a1.length) (hl2 : l2 ≤ a2.length)
+    (hs1 : s1.length = pm) (hs2 : s2.length = pm) (hs3 : s3.length = pm) (hs4 : s4.length = pm) :
+    pathRename pm host fds fd1 a1 l1 fd2 a2 l2 s1 s2 s3 s4 = .val (
+      match resolveSpec pm d1 (a1.take l1), resolveSpec pm d2 (a2.take l2) with
+      | some p1, some p2 =>
+        let op := HostOp.rename (cstr p1) (cstr p2)
+        ⟨match host op with | .ok => Gen.WasiPath.errnoSuccess | .err e => wasiErrno e, [op]⟩
+      | _, _ => ⟨Gen.WasiPath.errnoInval, []⟩) := by
+  have r1 := resolved_strcpy pm d1 t1 a1 l1 s1 s3 h10 h1ne hl1 hs1 hs3
+  have r2 := resolved_strcpy pm d2 t2 a2 l2 s2 s4 h20 h2ne hl2 hs2 hs4
+  unfold pathRename
+  simp only [hfd1, hfd2]
+  cases h1 : resolveSpec pm d1 (a1.take l1) with
+  | none => rw [h1] at r1; simp only at r1; rw [r1]; rfl
+  | some p1 =>
+    rw [h1] at r1
+    obtain ⟨b1, n1, e1, c1, k1⟩ := r1
+    rw [e1]
+    simp only [Out.bind_val]
+    cases h2 : resolveSpec pm d2 (a2.take l2) with
+    | none => rw [h2] at r2; simp only at r2; rw [r2]; rfl
+    | some p2 =>
+      rw [h2] at r2
+      obtain ⟨b2, n2, e2, c2, k2⟩ := r2
+      rw [e2]
+      simp only [Out.bind_val, c1, c2, k1, k2]
+      cases host (HostOp.rename (cstr p1) (cstr p2)) <;> rfl
+
+/-- **path_symlink**: the link target is taken verbatim (rejected iff `oldPathLength ≥ PATH_MAX`),
+    the link path is resolved; exactly one `symlink(target, resolved)`. -/
+theorem path_symlink_acts_on_resolved (pm : Nat) (host : HostOp → HostRes) (fds : FdTable)
+    (fd : Nat) (d t ta a : Bytes) (tl l : Nat) (s1 s2 s3 s4 : Bytes)
+    (hfd : fds[fd]? = some (some (d ++ 0 :: t)))
+    (h0 : (0 : UInt8) ∉ d) (hne : d ≠ []) (htl : tl ≤ ta.length) (hl : l ≤ a.length)
+    (hs1 : s1.length = pm) (hs2 : s2.length = pm) (hs3 : s3.length = pm) (hs4 : s4.length = pm) :
+    pathSymlink pm host fds ta tl fd a l s1 s2 s3 s4 = .val (
+      if pm ≤ tl then ⟨Gen.WasiPath.errnoInval, []⟩ else
+      match resolveSpec pm d (a.take l) with
+      | some p =>
+        let op := HostOp.symlink (cstr (ta.take tl)) (cstr p)
+        ⟨match host op with | .ok => Gen.WasiPath.errnoSuccess | .err e => wasiErrno e, [op]⟩
+      | none => ⟨Gen.WasiPath.errnoInval, []⟩) := by
+  have r2 := resolved_strcpy pm d t a l s2 s4 h0 hne hl hs2 hs4
+  unfold pathSymlink
+  simp only [hfd, Gen.WasiPath.symlinkTargetTooLong, Gen.WasiPath.symlinkTargetErrno, ge_iff_le, decide_eq_true_eq]
+  by_cases hlong : pm ≤ tl
+  · simp [hlong, Gen.WasiPath.errnoInval]
+  · simp only [hlong, if_false]
+    rw [memcpy_first s1 ta tl htl (by omega)]
+    simp only [Out.bind_val]
+    have hlt : (ta.take tl).length = tl := by simp [Nat.min_eq_left htl]
+    rw [write_step' s1 (ta.take tl) 0 _ _ hlt.symm hlt.symm (by rw [hlt]; omega)]
+    simp only [Out.bind_val]
+    cases h2 : resolveSpec pm d (a.take l) with
+    | none => rw [h2] at r2; simp only at r2; rw [r2]; rfl
+    | some p =>
+      rw [h2] at r2
+      obtain ⟨b2, n2, e2, c2, k2⟩ := r2
+      rw [e2]
+      simp only [Out.bind_val]
+      have hnul : (0 : UInt8) ∈ ta.take tl ++ [0] ++ s1.drop (ta.take tl ++ [0]).length := by simp
+      have hc : cstr (ta.take tl ++ [0] ++ s1.drop (ta.take tl ++ [0]).length) = cstr (ta.take tl) := by
+        rw [List.append_assoc]; exact cstr_append_nul _ _
+      have hfit : (cstr (ta.take tl ++ [0] ++ s1.drop (ta.take tl ++ [0]).length)).length < s3.length := by
+        rw [hc]; have := cstr_length_le (ta.take tl); omega
+      rw [strcpy_ok s3 _ hnul hfit]
+      simp only [Out.bind_val, c2, k2]
+      rw [cstr_strcpy _ _ (cstr_nul_free _), hc]
+      cases host (HostOp.symlink (cstr (ta.take tl)) (cstr p)) <;> rfl
+
+/-- For NUL-free guest paths the operation is on exactly the specified string. -/
+theorem path_op_acts_on_resolved_nulfree (pm : Nat) (host : HostOp → HostRes) (fds : FdTable) (call : PathCall)
+    (fd : Nat) (dir tl avail : Bytes) (len : Nat) (s1 s2 p : Bytes)
+    (hfd : fds[fd]? = some (some (dir ++ 0 :: tl)))
+    (hdir0 : (0 : UInt8) ∉ dir) (hdne : dir ≠ []) (hlen : len ≤ avail.length)
+    (hs1 : s1.length = pm) (hs2 : s2.length = pm)
+    (hp0 : (0 : UInt8) ∉ avail.take len) (hs : resolveSpec pm dir (avail.take len) = some p) :
+    ∃ e, pathCall pm host fds call fd avail len s1 s2 = .val ⟨e, [call.hostOp p]⟩ := by
+  rw [path_op_acts_on_resolved pm host fds call fd dir tl avail len s1 s2 hfd hdir0 hdne hlen hs1 hs2, hs]
+  obtain ⟨r, hr, hm⟩ := resolvePath_cstr pm dir tl avail len s1 hdir0 hdne hlen hs1 hp0
+  have hspec := resolvePath_spec pm dir tl avail len s1 hdir0 hdne hlen hs1
+  rw [hspec, hs] at hr
+  simp only [Option.map_some, Out.val.injEq] at hr
+  rw [← hr, hs] at hm
+  simp only [Option.map_some, Option.some.injEq] at hm
+  have hc : cstr (p ++ [0] ++ s1.drop (p ++ [0]).length) = cstr p := by
+    rw [List.append_assoc]; exact cstr_append_nul p _
+  rw [hc] at hm
+  simp only [hm]
+  exact ⟨_, rfl⟩
+
+/-- **path_embedded_nul_counterexample.**  A guest path with a NUL byte: `path_create_directory`
+    of `a\0b` under `/d` creates `/d/a` — the host operation does not act on the resolved path
+    `/d/a\0b` (which the host cannot name) and the call is not rejected. -/
+theorem path_embedded_nul_counterexample :
+    pathCall 32 (fun _ => .ok) [some [47, 100, 0]] .createDirectory 0 [97, 0, 98] 3
+        (List.replicate 32 0xAA) (List.replicate 32 0xAA)
+      = .val ⟨0, [.mkdir [47, 100, 47, 97] 0o755]⟩ ∧
+    resolveSpec 32 [47, 100] [97, 0, 98] = some [47, 100, 47, 97, 0, 98] := by
+  decide
+
+
 end W2c2Verif.C14
